@@ -34,6 +34,7 @@ class Unit:
     twin_of: Optional[str] = None   # known-finding twin
     finding: Optional[dict] = None
     driver: str = ""                # kani (needs goto-instrument --dfcc: contracts, stub_verified) | own
+    bounded: str = ""               # non-empty: a bounded stand-in (never counted as proved)
 
     @property
     def fq(self):
@@ -188,7 +189,8 @@ class KaniBuild:
             mod = ["", "#[cfg(kani)]", "#[allow(unused_mut, unused_variables)]", "mod verif_l0 {", "    use super::*;"]
             for h in hs:
                 body = regionise(h.name, h.body.rstrip("\n")) + f'\n        kani::cover!(true, "reachable");'
-                self.units[h.name] = Unit(h.name, primary_props(h.props, "L0"), h.klass, h.clauses, "harness", ", ".join(h.fns), file, h.replay, group="L0")
+                self.units[h.name] = Unit(h.name, primary_props(h.props, "L0"), h.klass, h.clauses, "harness", ", ".join(h.fns), file, h.replay, group="L0",
+                                          bounded=getattr(h, "bounded", ""))
 
                 def emit(hname, hbody, h=h):
                     if h.stub_verified:
